@@ -46,6 +46,7 @@ def instances(tier, seed):
         progs += [({'fam': 'T1', 'K': 3, 'd0': 1, 's': 2, 'C': 2}, False), ({'fam': 'T2', 'K0': 3, 'K1': 2}, False), ({'fam': 'A1', 'K': 2, 'C': 2}, False),
                   ({'fam': 'K1', 'origins': ['s', 's']}, False), ({'fam': 'D2', 'C': 2}, False), ({'fam': 'L1'}, False),
                   # BatchNorm with eps of the order of the running variances: the re-created BatchNorm must carry the hyper-parameters of the one it replaces
+                  ({'fam': 'X2', 'via': 'direct', 'exclude': 'name'}, False), ({'fam': 'X2', 'via': 'cat', 'exclude': 'name'}, False),
                   ({'fam': 'D2', 'C': 2, 'bn_stats': 'generic'}, False), ({'fam': 'T2', 'K0': 2, 'K1': 1, 'T': 2, 'bn_stats': 'generic'}, False), ({'fam': 'L1', 'bn_stats': 'generic'}, False)]
     else:
         for K in range(1, 10):
